@@ -7,7 +7,9 @@
 #include "obs.hpp"
 #include "desc.hpp"
 
-extern "C" { extern long yaep_verif_alloc_count, yaep_verif_fail_at, yaep_verif_live_blocks; }
+extern "C" { extern long yaep_verif_alloc_count, yaep_verif_fail_at, yaep_verif_live_blocks; extern void **yaep_verif_fail_bt; }
+#include <sys/mman.h>
+static void **g_bt;   // shared memory: return addresses of the failing request (survives a crash of the child)
 
 struct Scenario { std::string name; int kind; /*0 create, 1 define text, 2 define callbacks, 3 parse*/ std::string text; std::vector<int> input; Flags fl; int am; int strict; };
 
@@ -68,8 +70,36 @@ static std::string bystander_obs(void *b) {
   return s;
 }
 
+static std::map<void *, std::string> g_symcache;
+static std::string g_self;
+static std::string site_signature() {
+  // function names of the frames inside the library (allocate.c's own frames dropped), innermost first, at most 4
+  std::vector<void *> need;
+  for (int i = 0; i < 15 && g_bt[i]; i++) if (!g_symcache.count(g_bt[i])) need.push_back(g_bt[i]);
+  if (!need.empty()) {
+    std::string cmd = "addr2line -f -s -e " + g_self;
+    for (void *p : need) { char b[32]; snprintf(b, sizeof b, " %p", (void *) ((char *) p - 1)); cmd += b; }
+    FILE *f = popen(cmd.c_str(), "r");
+    if (!f) machinery_error("addr2line not available");
+    char fn[512], loc[512];
+    for (void *p : need) { if (!fgets(fn, sizeof fn, f) || !fgets(loc, sizeof loc, f)) break; fn[strcspn(fn, "\n")] = 0; loc[strcspn(loc, ":\n")] = 0; g_symcache[p] = std::string(fn) + "@" + loc; }
+    pclose(f);
+  }
+  std::string sig; int n = 0;
+  for (int i = 0; i < 15 && g_bt[i] && n < 4; i++) {
+    const std::string &s = g_symcache[g_bt[i]];
+    std::string file = s.substr(s.find('@') + 1), fn = s.substr(0, s.find('@'));
+    if (file == "allocate.c" || fn.rfind("yaep_verif", 0) == 0) continue;
+    if (file != "yaep.c" && file != "sgramm.y" && file != "sgramm.c" && file != "hashtab.c" && file != "objstack.c" && file != "vlobject.c" && file != "objstack.h" && file != "vlobject.h") { if (n == 0) continue; else break; }
+    sig += (n ? "<" : "") + fn; n++;
+  }
+  return sig.empty() ? "?" : sig;
+}
+
 int eng_fault_main(int argc, char **argv) {
   Args a(argc, argv, 2);
+  g_bt = (void **) mmap(NULL, 4096, PROT_READ | PROT_WRITE, MAP_SHARED | MAP_ANONYMOUS, -1, 0);
+  { char b[4096]; ssize_t k = readlink("/proc/self/exe", b, sizeof b - 1); b[k > 0 ? k : 0] = 0; g_self = b; }
   std::vector<Scenario> scs = scenarios();
   int si = 0, sn = 1; sscanf(a.get("shard", "0/1").c_str(), "%d/%d", &si, &sn);
   bool verbose = a.has("verbose");
@@ -78,11 +108,13 @@ int eng_fault_main(int argc, char **argv) {
   std::map<std::string, std::string> known_cases;
   if (a.has("known-file")) {
     FILE *kf = fopen(a.get("known-file").c_str(), "r");
-    if (kf) { char line[512]; while (fgets(line, sizeof line, kf)) { char sc[128], kind[64], id[32]; long k; if (sscanf(line, "%31s scenario=%127s k=%ld kind=%63s", id, sc, &k, kind) == 4) known_cases[std::string(sc) + " " + std::to_string(k) + " " + kind] = id; } fclose(kf); }
+    if (kf) { char line[512]; while (fgets(line, sizeof line, kf)) { char sc[128], kind[64], id[32]; long k; char site[256]; (void) k; if (sscanf(line, "%31s scenario=%127s site=%255s kind=%63s", id, sc, site, kind) == 4) known_cases[std::string(sc) + " " + site + " " + kind] = id; } fclose(kf); }
   }
   std::set<std::string> enabled; for (auto &x : split(a.get("known", ""), ',')) enabled.insert(x);
-  auto file_violation = [&](Report &r, const std::string &js, const std::string &scname, long k, const std::string &kind) {
-    auto it = known_cases.find(scname + " " + std::to_string(k) + " " + kind);
+  auto file_violation = [&](Report &r, const std::string &js0, const std::string &scname, long k, const std::string &kind) {
+    std::string site = site_signature(); (void) k;
+    std::string js = js0; js.insert(js.size() - 1, ",\"site\":" + jstr(site));
+    auto it = known_cases.find(scname + " " + site + " " + kind);
     if (it != known_cases.end() && enabled.count(it->second)) { std::string j2 = js; j2.insert(j2.size() - 1, ",\"finding\":" + jstr(it->second)); r.knownf(j2); r.add("known_" + it->second); }
     else r.viol(js);
   };
@@ -93,6 +125,7 @@ int eng_fault_main(int argc, char **argv) {
     std::string before = bystander_obs(b);
     Prepared p; prepare(sc, p);
     g_trk.reset();
+    g_bt[0] = NULL; yaep_verif_fail_bt = g_bt;
     yaep_verif_fail_at = yaep_verif_alloc_count + k;
     ParseObs po;
     int rc = run_call(sc, p, &po);
